@@ -558,16 +558,17 @@ def main(ck):
         hists.append(standard_history("base0", KINDS[1], base, star, [], rng, profile_names, ("inmem",),
                                       extra_after_import=False))
     else:
-        for i in range(2):
-            # base0: every field through an in-memory memoizer (+ a chain through a file-backed one);
-            # base1: every field through a file-backed memoizer
-            base = baseline_base(rng, explicit=(i == 1))
+        for i in range(3):
+            # base0: every field through an in-memory memoizer + a cumulative chain over every field through a
+            # file-backed one; base1: every field through a file-backed memoizer; base2: twelve fields through
+            # both kinds in lock step
+            base = baseline_base(rng, explicit=(i >= 1))
             order = rng.sample(bfields, len(bfields))
-            star = suspicious[KINDS[1]] + [f for f in order if f not in suspicious[KINDS[1]]]
-            chain = rng.sample(bfields, 10) if i == 0 else []
+            star = suspicious[KINDS[1]] + [f for f in (order if i < 2 else order[:12]) if f not in suspicious[KINDS[1]]]
+            chain = rng.sample(bfields, len(bfields)) if i == 0 else []
             chain.sort(key=lambda f: f != "jobtype")
             hists.append(standard_history(f"base{i}", KINDS[1], base, star, chain, rng, profile_names,
-                                          ("inmem",) if i == 0 else ("file",), extra_after_import=False,
+                                          [("inmem",), ("file",), ("inmem", "file")][i], extra_after_import=False,
                                           chain_handles=("file",)))
 
     # ------------------------------------------------------------------ real code: segment 1 in fresh processes
